@@ -24,6 +24,11 @@ Theorem C18_b64_decode_encode :
   forall b : list N, Forall (fun x => x < 256) b -> exists s, encode b = Ok s /\ decode s = Ok b.
 Proof. exact decode_encode. Qed.
 
+(* The encoder is injective: two different byte strings never share an encoding. *)
+Theorem C18_b64_encode_injective :
+  forall a b : list N, Forall (fun x => x < 256) a -> Forall (fun x => x < 256) b -> encode a = encode b -> a = b.
+Proof. exact b64_encode_injective. Qed.
+
 (* The decoder accepts exactly the well-formed texts (whole 4-symbol groups, Table 1 symbols, '=' only as the last
    one or two symbols) and returns what they denote; on everything else it returns Err — it never panics.
    Scope note (canonical vs lenient): `denote` drops the 2 or 4 bits left over after the last complete octet
@@ -88,6 +93,7 @@ Proof. vm_compute. repeat split. Qed.
 Print Assumptions C18_b64_encode_spec.
 Print Assumptions C18_b64_encode_shape.
 Print Assumptions C18_b64_decode_encode.
+Print Assumptions C18_b64_encode_injective.
 Print Assumptions C18_b64_decode_iff.
 Print Assumptions C18_b64_decode_rejects_malformed.
 Print Assumptions C18_b64_decode_never_panics.
